@@ -1181,6 +1181,12 @@ def splice_fn(text: str, sp: Splice, item: str, vacuity: bool = False) -> str:
                     raise ExtractError(f"{item}: loop header `{sp.loop_header[n]}` matches {len(hits)} loops")
             if len(set(where.values())) != len(where):
                 raise ExtractError(f"{item}: two loop splices landed on the same loop")
+            # a loop that matches NO declared header is a loop nobody wrote an invariant for (or one whose header was merely
+            # rewritten): dropping the invariants of the loop it replaced would turn "cannot prove" into an alarm -- refuse
+            unknown = [k for k in range(len(lp)) if k not in where.values()]
+            if unknown and len(where) < len(wanted):
+                raise ExtractError(f"{item}: {len(unknown)} loop(s) match no `//@ loop N header` while {len(wanted) - len(where)} declared loop(s) "
+                                   f"were not found: loop structure changed, invariants cannot be applied")
         for n in wanted:
             if n not in where:
                 # the loop is gone: the function is judged without that loop's invariants; their labels are recorded so
@@ -1635,6 +1641,7 @@ class Unit:
                 + (f" variant={variant}" if variant else "") + (" vacuity-run" if vacuity else "")
                 + "\n// extracted from " + REPO + " on every run; do not edit\n"
                 + "#![allow(unused_imports, unused_variables, dead_code, unused_mut, unused_parens, unused_braces, non_snake_case, unreachable_code, unused_must_use)]\n"
+                + "".join(f"#![feature({f})]\n" for f in self.cfg.get("crate_features", []))
                 + uses.strip() + "\nverus! {\n")
         out = [head]
         line = head.count("\n") + 1
